@@ -170,9 +170,9 @@ class DataFrame:
             attributes = [attributes]
         attribute_indices = []
         new_header = attributes
-        for index, attribute in enumerate(self._schema):
-            if attribute in attributes:
-                attribute_indices.append(index)
+        source_names = list(self.column_names)
+        for attribute in attributes:
+            attribute_indices.append(source_names.index(attribute))
 
         def _inner_projection():
             for tup in self._rows:
